@@ -62,8 +62,8 @@ silent("c01-benign-concat-kw", ["C01", "C02", "C08"], B + "concatenate.py",
 fire("c02-affine-missing-sum", "C02", B + "affine.py",
      "        return x * self.scale + self.loc, jnp.log(jnp.abs(self.scale)).sum()",
      "        return x * self.scale + self.loc, jnp.log(jnp.abs(self.scale))", "C02.scalar")
-fire("c02-vmap-sum-axis", "C02", B + "jax_transforms.py",
-     "        return y, jnp.sum(log_det)", "        return y, jnp.sum(log_det, axis=0)" , "C02.scalar")
+silent("c02-benign-vmap-sum-axis", ["C02", "C01", "C08"], B + "jax_transforms.py",
+       "        return y, jnp.sum(log_det)", "        return y, jnp.sum(log_det, axis=0)")
 fire("c02-scale-IL-sign", "C02", B + "affine.py",
      "        return y / self.scale, -jnp.log(jnp.abs(self.scale)).sum()",
      "        return y / self.scale, jnp.log(jnp.abs(self.scale)).sum()", "C02.neg")
@@ -78,3 +78,270 @@ fire("c02-planar-raw-u", "C02", B + "planar.py",
 fire("c02-bnaf-logdet-at-y", "C02", B + "block_autoregressive_network.py",
      "        _, forward_log_det = self.transform_and_log_det(x, condition)\n        return x, -forward_log_det",
      "        _, forward_log_det = self.transform_and_log_det(y, condition)\n        return x, -forward_log_det", "C02.neg")
+
+D = "flowjax/distributions.py"
+T = "flowjax/train/"
+
+# ------------------------------------------------------------------------------ C03
+fire("c03-logprob-sign", "C03", D, "        return p_z + log_abs_det", "        return p_z - log_abs_det", "C03.wire")
+fire("c03-logprob-base-at-x", "C03", D, "        p_z = self.base_dist._log_prob(z, condition)",
+     "        p_z = self.base_dist._log_prob(x, condition)", "C03.wire")
+fire("c03-base-condition-dropped", "C03", D, "        p_z = self.base_dist._log_prob(z, condition)",
+     "        p_z = self.base_dist._log_prob(z)", "C03.wire")
+fire("c03-joint-adds-forward-logdet", "C03", D, "        return sample, log_prob_base - forward_log_dets",
+     "        return sample, log_prob_base + forward_log_dets", "C03.wire")
+fire("c03-sample-uses-inverse", "C03", D, "        return self.bijection.transform(base_sample, condition)",
+     "        return self.bijection.inverse(base_sample, condition)", "C03.wire")
+fire("c03-merge-not-reversed", ["C03", "C08"], D, "        bijection = Chain(list(reversed(bijections))).merge_chains()",
+     "        bijection = Chain(list(bijections)).merge_chains()")
+fire("c03-factory-ignores-invert", "C03", "flowjax/flows.py",
+     "    layers = eqx.filter_vmap(make_layer)(keys)\n    bijection = Invert(Scan(layers)) if invert else Scan(layers)\n    return Transformed(base_dist, bijection)\n\n\ndef planar_flow",
+     "    layers = eqx.filter_vmap(make_layer)(keys)\n    bijection = Invert(Scan(layers))\n    return Transformed(base_dist, bijection)\n\n\ndef planar_flow", "C03.factory")
+fire("c03-default-joint-logprob-of-key", "C03", D, "        return x, self._log_prob(x, condition)\n\n    def log_prob",
+     "        return x, self._log_prob(x)\n\n    def log_prob", "C03.default")
+silent("c03-benign-rename", "C03", D,
+       "        z, log_abs_det = self.bijection.inverse_and_log_det(x, condition)\n        p_z = self.base_dist._log_prob(z, condition)\n        return p_z + log_abs_det",
+       "        out = self.bijection.inverse_and_log_det(x, condition)\n        return out[1] + self.base_dist._log_prob(out[0], condition)")
+
+# ------------------------------------------------------------------------------ C04
+fire("c04-bnaf-default-tanh", "C04", B + "block_autoregressive_network.py",
+     "            activation = LeakyTanh(3)", "            activation = Tanh()", "C04.image",
+     )
+CORPUS[-1]["edits"].append((B + "block_autoregressive_network.py", "from flowjax.bijections.tanh import LeakyTanh",
+                            "from flowjax.bijections.tanh import LeakyTanh, Tanh"))
+fire("c04-spline-flow-plain-tanh", "C04", "flowjax/flows.py",
+     "            LeakyTanh(tanh_max_val, (dim,)),\n            get_splines(),",
+     "            Tanh((dim,)),\n            get_splines(),", "C04.image")
+CORPUS[-1]["edits"].append(("flowjax/flows.py", "    LeakyTanh,\n", "    LeakyTanh,\n    Tanh,\n"))
+fire("c04-spline-tail-not-identity", ["C04", "C07"], B + "rational_quadratic_spline.py",
+     "        return jnp.where(in_bounds, y, x)", "        return jnp.where(in_bounds, y, self.interval[1])")
+fire("c04-leaky-intercept", ["C04", "C07"], B + "tanh.py",
+     "        self.intercept = math.tanh(max_val) - self.linear_grad * max_val",
+     "        self.intercept = math.tanh(max_val) + self.linear_grad * max_val")
+
+# ------------------------------------------------------------------------------ C05
+fire("c05-normal-swaps-loc-scale", "C05", D, "        self.bijection = Affine(loc=loc, scale=scale)\n\n\nclass LogNormal",
+     "        self.bijection = Affine(loc=scale, scale=loc)\n\n\nclass LogNormal", "C05.bind")
+fire("c05-exponential-rate-not-inverted", "C05", D, "        self.bijection = Scale(1 / rate)", "        self.bijection = Scale(rate)")
+fire("c05-uniform-scale-maxval", "C05", D, "        self.bijection = Affine(loc=minval, scale=maxval - minval)",
+     "        self.bijection = Affine(loc=minval, scale=maxval)")
+fire("c05-gumbel-sign", "C05", D, "        return -(x + jnp.exp(-x)).sum()", "        return -(x - jnp.exp(-x)).sum()", "C05.family")
+fire("c05-normal-mean-not-sum", "C05", D, "        return jstats.norm.logpdf(x).sum()", "        return jstats.norm.logpdf(x).mean()", "C05.family")
+fire("c05-laplace-sampler-wrong-family", "C05", D, "        return jr.laplace(key, shape=self.shape)",
+     "        return jr.logistic(key, shape=self.shape)", "C05.family")
+fire("c05-nan-not-mapped", ["C05", "C18"], D, "        return jnp.where(jnp.isnan(lps), -jnp.inf, lps)", "        return lps")
+fire("c05-mixture-weights-not-added", "C05", D, "        return logsumexp(log_probs + self.log_normalized_weights)",
+     "        return logsumexp(log_probs)", "C05.mix")
+fire("c05-mixture-same-key", "C05", D, "        return component_dist._sample(key2, condition)",
+     "        return component_dist._sample(key1, condition)", "C05.mix")
+fire("c05-lognormal-order", "C05", D, "        self.bijection = Chain([Affine(loc, scale), Exp(shape)])",
+     "        self.bijection = Chain([Exp(shape), Affine(loc, scale)])", "C05.bind")
+fire("c05-studentt-df-sampler", "C05", D, "        return jr.t(key, df=self.df, shape=self.shape)",
+     "        return jr.t(key, df=self.df + 1, shape=self.shape)", "C05.family")
+silent("c05-benign-affine-positional", "C05", D, "        self.bijection = Affine(loc=loc, scale=scale)\n\n\nclass LogNormal",
+       "        self.bijection = Affine(loc, scale)\n\n\nclass LogNormal")
+
+# ------------------------------------------------------------------------------ C06
+fire("c06-one-key-broadcast", "C06", D, "        return jnp.reshape(jr.split(key, key_size), (*key_shape, 2))",
+     "        return jnp.broadcast_to(key, (*key_shape, 2))", "C06.keys")
+fire("c06-sample-passes-key", "C06", D, "        return self._vectorize(self._sample)(keys, condition)",
+     "        return self._vectorize(self._sample)(key, condition)", "C06.lift")
+fire("c06-exclude-always", "C06", D, "        ex = frozenset([1]) if self.cond_shape is None else frozenset()",
+     "        ex = frozenset([1])", "C06.lift")
+fire("c06-leading-shape-cut", "C06", D, "            leading_cond_shape = condition.shape[: -self.cond_ndim or None]",
+     "            leading_cond_shape = condition.shape[: -self.cond_ndim]", "C06.keys")
+fire("c06-bij-vectorize-truthy", ["C06", "C13"], B + "bijection.py",
+     "        if self.bijection.cond_shape is not None:\n            in_shapes.append",
+     "        if self.bijection.cond_shape:\n            in_shapes.append")
+
+# ------------------------------------------------------------------------------ C07
+fire("c07-affine-consistently-wrong", "C07", B + "affine.py",
+     "        return x * self.scale + self.loc\n\n    def transform_and_log_det(self, x, condition=None):\n        return x * self.scale + self.loc,",
+     "        return x * self.scale - self.loc\n\n    def transform_and_log_det(self, x, condition=None):\n        return x * self.scale - self.loc,", "C07.formula")
+fire("c07-permute-inverse-forward", "C07", B + "utils.py",
+     "        indices = jnp.unravel_index(permutation.ravel(), permutation.shape)",
+     "        indices = jnp.unravel_index(jnp.argsort(permutation.ravel()), permutation.shape)", "C07.perm")
+fire("c07-tri-includes-diagonal", ["C07", "C11"], B + "affine.py", "jnp.tril(arr, k=-1) if lower else jnp.triu(arr, k=1)",
+     "jnp.tril(arr) if lower else jnp.triu(arr)")
+fire("c07-solver-polarity", "C07", B + "affine.py",
+     "        return solve_triangular(self.triangular, y - self.loc, lower=self.lower)",
+     "        return solve_triangular(self.triangular, y - self.loc, lower=True)", "C07.tri")
+fire("c07-spline-eq4-term", "C07", B + "rational_quadratic_spline.py",
+     "        num = (yk1 - yk) * (sk * xi**2 + dk * xi * (1 - xi))", "        num = (yk1 - yk) * (sk * xi**2 + dk1 * xi * (1 - xi))", "C07.spline")
+fire("c07-spline-wrong-table", "C07", B + "rational_quadratic_spline.py",
+     "        k = jnp.maximum(jnp.searchsorted(y_pos, y_robust) - 1, 0)", "        k = jnp.maximum(jnp.searchsorted(x_pos, y_robust) - 1, 0)", "C07.spline")
+fire("c07-planar-raw-u", "C07", B + "planar.py",
+     "        u = self.get_act_scale()\n        return x + u * self.activation_fn(self.weight @ x + self.bias)",
+     "        u = self._act_scale\n        return x + u * self.activation_fn(self.weight @ x + self.bias)", "C07.formula")
+CORPUS[-1]["edits"].append((B + "planar.py", "        u = self.get_act_scale()\n        act = self.activation_fn(x @ self.weight + self.bias)",
+                            "        u = self._act_scale\n        act = self.activation_fn(x @ self.weight + self.bias)"))
+fire("c07-leaky-threshold", "C07", B + "tanh.py", "        is_linear = jnp.abs(x) >= self.max_val\n", "        is_linear = jnp.abs(x) > self.max_val + 1\n")
+silent("c07-benign-spline-reassociate", ["C07", "C01", "C02"], B + "rational_quadratic_spline.py",
+       "        num = (yk1 - yk) * (sk * xi**2 + dk * xi * (1 - xi))", "        num = (sk * xi * xi + xi * dk * (1 - xi)) * (yk1 - yk)")
+
+# ------------------------------------------------------------------------------ C08
+fire("c08-stack-negative-axis", ["C08", "C13"], B + "concatenate.py",
+     "        axis = range(len(shapes[0]) + 1)[axis]  # Avoids issues with negative axes\n", "")
+fire("c08-vmap-cond-axis", "C08", B + "jax_transforms.py",
+     "        cond_ax = range(len(self.bijection.cond_shape) + 1)[cond_ax]\n", "", "C08.axis")
+fire("c08-stack-modulus", "C08", B + "concatenate.py",
+     "        axis = range(len(shapes[0]) + 1)[axis]  # Avoids issues with negative axes",
+     "        axis = range(len(shapes[0]))[axis]  # Avoids issues with negative axes")
+fire("c08-concat-split-all", "C08", B + "concatenate.py",
+     "        self.split_idxs = tuple(accumulate([s[axis] for s in shapes[:-1]]))",
+     "        self.split_idxs = tuple(accumulate([s[axis] for s in shapes]))", "C08.shape")
+fire("c08-chain-getitem-slice", "C08", B + "chain.py", "            return Chain(self.bijections[i])",
+     "            return Chain(self.bijections[i][::-1])", "C08.flatten")
+fire("c08-vmap-x-axis", "C08", B + "jax_transforms.py", "        self.in_axes = (in_axes, 0, in_axes_condition)",
+     "        self.in_axes = (in_axes, None, in_axes_condition)", "C08.shape")
+fire("c08-chain-cond-first-only", ["C08", "C13"], B + "chain.py",
+     "        self.cond_shape = merge_cond_shapes([unwrap(b).cond_shape for b in unwrapped])",
+     "        self.cond_shape = unwrapped[0].cond_shape")
+fire("c08-reshape-out", "C08", B + "utils.py",
+     "        return self.bijection.inverse(y, condition).reshape(self.shape)",
+     "        return self.bijection.inverse(y, condition).reshape(self.bijection.shape)")
+
+# ------------------------------------------------------------------------------ C09
+fire("c09-mask-eager", "C09", B + "masked_autoregressive.py",
+     "lambda linear: linear.weight, linear, Where(mask, linear.weight, 0)", "lambda linear: linear.weight, linear, linear.weight * mask", "C09.strict")
+fire("c09-last-layer-nonstrict", "C09", B + "masked_autoregressive.py", "eq=i != len(mlp.layers) - 1)", "eq=True)", "C09.strict")
+fire("c09-rank-orientation", "C09", "flowjax/masks.py", "    return op(out_ranks[:, None], in_ranks)", "    return op(in_ranks[:, None], out_ranks).T", "C09.ranks")
+fire("c09-hidden-ranks-conditional", "C09", B + "masked_autoregressive.py",
+     "            hidden_ranks = (jnp.arange(nn_width) % dim) - 1", "            hidden_ranks = jnp.arange(nn_width) % dim", "C09.ranks")
+fire("c09-coupling-conditioner-sees-all", "C09", B + "coupling.py",
+     "        nn_input = x_cond if condition is None else jnp.hstack((x_cond, condition))\n        transformer_params = self.conditioner(nn_input)\n        transformer = self._flat_params_to_transformer(transformer_params)\n        y_trans = transformer.transform(x_trans)",
+     "        nn_input = x if condition is None else jnp.hstack((x, condition))\n        transformer_params = self.conditioner(nn_input)\n        transformer = self._flat_params_to_transformer(transformer_params)\n        y_trans = transformer.transform(x_trans)", "C09.coupling")
+fire("c09-bnaf-diag-not-positive", ["C09", "C11"], B + "block_autoregressive_network.py",
+     "        BijectionReparam(weight, SoftPlus(), invert_on_init=False),\n        weight,", "        weight,\n        weight,")
+fire("c09-bnaf-cond-every-layer", "C09", B + "block_autoregressive_network.py",
+     "            x = layer(x)\n            if i == 0 and condition is not None:", "            x = layer(x)\n            if condition is not None:", "C09.block")
+fire("c09-block-tril-offset", "C09", "flowjax/masks.py", "        row_i = max(0, (i - k)) * block_shape[0]", "        row_i = max(0, (i - k + 1)) * block_shape[0]", "C09.masks")
+
+# ------------------------------------------------------------------------------ C10
+fire("c10-no-iteration-bound", "C10", "flowjax/bisection_search.py",
+     "        return jnp.logical_and((upper - lower) > 2 * tol, iterations < max_iter)", "        return (upper - lower) > 2 * tol", "C10.term")
+fire("c10-branches-swapped", "C10", "flowjax/bisection_search.py",
+     "        lower = jnp.where(sign == 1, lower, midpoint)\n        upper = jnp.where(sign == 1, midpoint, upper)",
+     "        lower = jnp.where(sign == 1, midpoint, lower)\n        upper = jnp.where(sign == 1, upper, midpoint)", "C10.bracket")
+fire("c10-exact-hit-dropped", "C10", "flowjax/bisection_search.py",
+     "        lower = jnp.where(sign == 0, midpoint, lower)\n        upper = jnp.where(sign == 0, midpoint, upper)\n", "", "C10.bracket")
+fire("c10-adapt-wrong-direction", "C10", "flowjax/bisection_search.py",
+     "        lower_update = jnp.where(sign == 1, state.lower - state.expand_by, state.upper)",
+     "        lower_update = jnp.where(sign == 1, state.upper, state.lower - state.expand_by)", "C10.adapt")
+fire("c10-adapt-no-growth", "C10", "flowjax/bisection_search.py", "            expand_by=state.expand_by * expand_factor,", "            expand_by=state.expand_by,", "C10.adapt")
+fire("c10-driver-wrong-coordinate", "C10", "flowjax/bisection_search.py", "            return autoregressive_fn(x)[i]", "            return autoregressive_fn(x)[0]", "C10.driver")
+fire("c10-root-is-lower", "C10", "flowjax/bisection_search.py", "    root = (lower + upper) / 2\n    return root, adapt_iterations", "    root = lower\n    return root, adapt_iterations", "C10.bracket")
+fire("c10-width-test-tol", "C10", "flowjax/bisection_search.py", "(upper - lower) > 2 * tol", "(upper - lower) > 4 * tol", "C10.bracket")
+
+# ------------------------------------------------------------------------------ C11
+fire("c11-scale-unconstrained", ["C11", "C05"], B + "affine.py",
+     "        self.shape = scale.shape\n        self.scale = wrappers.BijectionReparam(scale, SoftPlus())", "        self.shape = scale.shape\n        self.scale = scale")
+fire("c11-min-derivative-dropped", "C11", B + "rational_quadratic_spline.py",
+     "            lambda arr: jax.nn.softplus(arr) + self.min_derivative,", "            lambda arr: jax.nn.softplus(arr),", "C11.range")
+fire("c11-error-if-discarded", "C11", D,
+     "        df = eqx.error_if(df, df <= 0, \"Degrees of freedom values must be positive.\")",
+     "        eqx.error_if(df, df <= 0, \"Degrees of freedom values must be positive.\")", "C11.guard")
+fire("c11-uniform-boundary", "C11", D, "(minval, maxval), maxval <= minval,", "(minval, maxval), maxval < minval,", "C11.guard")
+fire("c11-reparam-unwrap-inverse", "C11", "flowjax/wrappers.py",
+     "        return self.bijection._vectorize.transform(self.arr)", "        return self.bijection._vectorize.inverse(self.arr)", "C11.reparam")
+fire("c11-min-scale-not-added", "C11", "flowjax/flows.py",
+     "    scale_reparam = Chain([SoftPlus(), non_trainable(Loc(min_scale))])", "    scale_reparam = Chain([SoftPlus()])", "C11.range")
+
+# ------------------------------------------------------------------------------ C12
+fire("c12-logprob-no-unwrap", "C12", D, "        self = unwrap(self)\n        x = arraylike_to_array(x, err_name=\"x\", dtype=float)",
+     "        x = arraylike_to_array(x, err_name=\"x\", dtype=float)", "C12.entry")
+fire("c12-wrapper-no-unwrap", ["C12", "C13"], B + "bijection.py",
+     "        return method(unwrap(bijection), _check_x(x), _check_condition(condition))",
+     "        return method(bijection, _check_x(x), _check_condition(condition))")
+fire("c12-nontrainable-no-stop-gradient", "C12", "flowjax/wrappers.py",
+     "        return eqx.combine(lax.stop_gradient(differentiable), static)", "        return eqx.combine(differentiable, static)", "C12.freeze")
+fire("c12-data-fit-is-leaf", "C12", T + "data_fit.py",
+     "        eqx.is_inexact_array,\n        is_leaf=lambda leaf: isinstance(leaf, wrappers.NonTrainable),\n    )\n    best_params = params",
+     "        eqx.is_inexact_array,\n    )\n    best_params = params", "C12.freeze")
+fire("c12-unwrap-not-recursive", "C12", "flowjax/wrappers.py",
+     "            leaf.recursive_unwrap() if isinstance(leaf, AbstractUnwrappable) else leaf",
+     "            leaf.unwrap() if isinstance(leaf, AbstractUnwrappable) else leaf", "C12.recursive")
+fire("c12-ml-loss-private-core", "C12", T + "losses.py", "        return -dist.log_prob(x, condition).mean()",
+     "        return -dist._log_prob(x, condition).mean()")
+
+# ------------------------------------------------------------------------------ C13
+fire("c13-hook-misses-method", "C13", B + "bijection.py", "            \"inverse\",\n            \"inverse_and_log_det\",\n        ]", "            \"inverse\",\n        ]", "C13.hook")
+fire("c13-rank-only-check", "C13", B + "bijection.py", "            if x.shape != bijection.shape:", "            if x.ndim != len(bijection.shape):", "C13.exact")
+fire("c13-missing-condition-accepted", "C13", B + "bijection.py",
+     "            elif bijection.cond_shape is not None:\n                raise ValueError(\"Expected condition to be provided.\")\n", "", "C13.exact")
+fire("c13-stack-no-shape-check", "C13", B + "concatenate.py", "        check_shapes_match(shapes)\n\n        axis = range", "        axis = range", "C13.ctor")
+fire("c13-partial-check-disabled", "C13", B + "utils.py", "        if expected_shape != self.bijection.shape:", "        if len(expected_shape) != len(self.bijection.shape):", "C13.ctor")
+fire("c13-transformed-cond-check", "C13", D, "            and self.base_dist.cond_shape != self.bijection.cond_shape\n", "            and len(self.base_dist.cond_shape) != len(self.bijection.cond_shape)\n", "C13.ctor")
+fire("c13-forward-unchecked-x", "C13", B + "bijection.py", "        return method(unwrap(bijection), _check_x(x), _check_condition(condition))",
+     "        _check_x(x)\n        return method(unwrap(bijection), x, _check_condition(condition))", "C13.exact")
+
+# ------------------------------------------------------------------------------ C14
+fire("c14-python-branch-on-value", "C14", B + "tanh.py",
+     "        is_linear = jnp.abs(x) >= self.max_val\n        linear_y", "        is_linear = jnp.abs(x) >= self.max_val\n        if is_linear.all():\n            return self.linear_grad * x + jnp.sign(x) * self.intercept\n        linear_y", "C14.trace")
+fire("c14-numpy-on-tracer", "C14", B + "exp.py", "        return jnp.exp(x)\n\n    def transform_and_log_det", "        import numpy as np\n        return jnp.asarray(np.exp(x))\n\n    def transform_and_log_det", "C14.trace")
+fire("c14-float-of-traced", "C14", B + "affine.py", "        return x + self.loc\n\n    def transform_and_log_det", "        return x + float(self.loc.sum())\n\n    def transform_and_log_det", "C14.trace")
+fire("c14-hidden-state", "C14", B + "exp.py", "        x = jnp.log(y)\n        return x, -x.sum()", "        x = jnp.log(y)\n        self.last = x\n        return x, -x.sum()", "C14.effect")
+fire("c14-static-array-field", "C14", B + "affine.py", "    loc: Array\n    shape: tuple[int, ...]\n    cond_shape: ClassVar[None] = None\n\n    def __init__(self, loc: ArrayLike):",
+     "    loc: Array = eqx.field(static=True)\n    shape: tuple[int, ...]\n    cond_shape: ClassVar[None] = None\n\n    def __init__(self, loc: ArrayLike):", "C14.static")
+CORPUS[-1]["edits"].append((B + "affine.py", "import jax.numpy as jnp\n", "import equinox as eqx\nimport jax.numpy as jnp\n"))
+fire("c14-item-in-bisection", "C14", "flowjax/bisection_search.py", "        midpoint = (lower + upper) / 2\n", "        midpoint = (lower + upper) / 2\n        if midpoint.item() == 0:\n            midpoint = midpoint + 0.0\n", "C14.trace")
+
+# ------------------------------------------------------------------------------ C15
+fire("c15-different-keys-per-array", "C15", T + "train_utils.py", "    arrays = [jr.permutation(key, a) for a in arrays]",
+     "    arrays = [jr.permutation(k, a) for k, a in zip(jr.split(key, len(arrays)), arrays)]", "C15.partition")
+fire("c15-leading-remainder", "C15", T + "train_utils.py", "    return arr[: n_batches * batch_size].reshape", "    return arr[arr.shape[0] - n_batches * batch_size :].reshape", "C15.batch")
+fire("c15-val-through-step", "C15", T + "data_fit.py", "            loss_i = loss_fn(params, static, *batch, key=subkey)",
+     "            params, opt_state, loss_i = step(params, static, *batch, optimizer=optimizer, opt_state=opt_state, loss_fn=loss_fn, key=subkey)")
+fire("c15-key-reused", "C15", T + "data_fit.py", "            key, subkey = jr.split(key)\n            loss_i = loss_fn", "            loss_i = loss_fn", "C15.epoch")
+fire("c15-shuffle-val-into-train", "C15", T + "data_fit.py", "        val_data = [jr.permutation(subkeys[1], a) for a in val_data]",
+     "        val_data = [jr.permutation(subkeys[1], a) for a in train_data]")
+fire("c15-condition-misaligned", "C15", T + "data_fit.py", "        train_data = [jr.permutation(subkeys[0], a) for a in train_data]",
+     "        train_data = [jr.permutation(k, a) for k, a in zip(jr.split(subkeys[0], len(train_data)), train_data)]", "C15.epoch")
+
+# ------------------------------------------------------------------------------ C16
+fire("c16-patience-off-by-one", "C16", T + "data_fit.py", "        elif count_fruitless(losses[\"val\"]) > max_patience:", "        elif count_fruitless(losses[\"val\"]) >= max_patience:", "C16.stop")
+fire("c16-return-last-always", "C16", T + "data_fit.py", "    params = best_params if return_best else params\n    dist = eqx.combine", "    dist = eqx.combine", "C16.select")
+fire("c16-variational-post-update", "C16", T + "variational_fit.py",
+     "            best_params = params  # The loss is evaluated before the update", "            best_params = new_params", "C16.version")
+fire("c16-best-from-train-loss", "C16", T + "data_fit.py", "        if losses[\"val\"][-1] == min(losses[\"val\"]):", "        if losses[\"train\"][-1] == min(losses[\"train\"]):", "C16.version")
+fire("c16-count-fruitless-off", "C16", T + "train_utils.py", "    return len(losses) - min_idx - 1", "    return len(losses) - min_idx", "C16.step")
+fire("c16-double-record", "C16", T + "data_fit.py", "            batch_losses.append(loss_i)\n        losses[\"val\"].append(sum(batch_losses) / len(batch_losses))",
+     "            batch_losses.append(loss_i)\n            losses[\"val\"].append(loss_i)\n        losses[\"val\"].append(sum(batch_losses) / len(batch_losses))")
+silent("c16-benign-rename-loop", ["C16", "C15"], T + "variational_fit.py",
+       "        losses.append(loss.item())\n        keys.set_postfix({\"loss\": loss.item()})\n        if loss.item() == min(losses):",
+       "        current = loss.item()\n        losses.append(current)\n        keys.set_postfix({\"loss\": current})\n        if current == min(losses):")
+
+# ------------------------------------------------------------------------------ C17
+fire("c17-ml-sign", "C17", T + "losses.py", "        return -dist.log_prob(x, condition).mean()", "        return dist.log_prob(x, condition).mean()", "C17.estimator")
+fire("c17-ml-sum", "C17", T + "losses.py", "        return -dist.log_prob(x, condition).mean()", "        return -dist.log_prob(x, condition).sum()", "C17.estimator")
+fire("c17-with-replacement", "C17", T + "losses.py", "(n_contrastive,), replace=False)", "(n_contrastive,))", "C17.idxs")
+fire("c17-stl-no-stop-gradient", "C17", T + "losses.py", "            dist = eqx.combine(stop_gradient(params), static)", "            dist = eqx.combine(params, static)", "C17.estimator")
+fire("c17-elbo-sign", "C17", T + "losses.py", "        return (log_probs - target_density).mean()", "        return (target_density - log_probs).mean()", "C17.estimator")
+fire("c17-contrastive-wrong-condition", "C17", T + "losses.py", "                contrastive, condition_i\n", "                contrastive, condition[contrastive_idxs]\n", "C17.estimator")
+fire("c17-self-not-excluded", "C17", T + "losses.py",
+     "        choices = jnp.delete(jnp.arange(batch_size), idx, assume_unique_indices=True)", "        choices = jnp.arange(batch_size)", "C17.idxs")
+
+# ------------------------------------------------------------------------------ C18
+fire("c18-leaky-unsanitised", ["C18"], B + "tanh.py", "        x_arctan = jnp.arctanh(jnp.where(is_linear, 0, y))  # To avoid nans", "        x_arctan = jnp.arctanh(y)", "C18.where")
+fire("c18-safe-const-zero", "C18", B + "rational_quadratic_spline.py",
+     "        y_robust = jnp.where(in_bounds, y, self.interval[0])  # To avoid nans", "        y_robust = jnp.where(in_bounds, y, 0)  # To avoid nans", "C18.safe-const")
+fire("c18-arctanh-safe-const-one", "C18", B + "tanh.py", "jnp.arctanh(jnp.where(is_linear, 0, y))", "jnp.arctanh(jnp.where(is_linear, 1.0, y))", "C18.safe-const")
+fire("c18-logmatmulexp-no-shift", "C18", B + "block_autoregressive_network.py",
+     "    x_shift = jax.lax.stop_gradient(jnp.amax(x, -1, keepdims=True))", "    x_shift = jnp.zeros(())", "C18.logspace")
+fire("c18-spline-raw-x-in-formula", "C18", B + "rational_quadratic_spline.py",
+     "        xi = (x_robust - x_pos[k]) / (x_pos[k + 1] - x_pos[k])\n        sk = (y_pos[k + 1] - y_pos[k]) / (x_pos[k + 1] - x_pos[k])\n        dk, dk1, yk, yk1",
+     "        xi = jnp.sqrt((x - x_pos[k]) / (x_pos[k + 1] - x_pos[k])) ** 2\n        sk = (y_pos[k + 1] - y_pos[k]) / (x_pos[k + 1] - x_pos[k])\n        dk, dk1, yk, yk1", "C18.where")
+
+# benign refactors across the tree: every check must stay silent
+ALL = [f"C{i:02d}" for i in range(1, 19)]
+silent("benign-docstring-and-comment", ALL, B + "affine.py", "class Affine(AbstractBijection):", "# reviewed\nclass Affine(AbstractBijection):")
+silent("benign-extract-helper-loc", ALL, B + "affine.py",
+       "    def transform(self, x, condition=None):\n        return x + self.loc\n",
+       "    def _shift(self, x):\n        return self.loc + x\n\n    def transform(self, x, condition=None):\n        return self._shift(x)\n")
+silent("benign-reorder-stack-init", ALL, B + "concatenate.py",
+       "        self.axis = axis\n        self.bijections = bijections\n\n        shapes = [b.shape for b in bijections]\n        check_shapes_match(shapes)",
+       "        self.bijections = bijections\n        self.axis = axis\n        shapes = [bij.shape for bij in bijections]\n        check_shapes_match(shapes)")
+silent("benign-data-fit-rename", ALL, T + "data_fit.py",
+       "            key, subkey = jr.split(key)\n            loss_i = loss_fn(params, static, *batch, key=subkey)\n            batch_losses.append(loss_i)",
+       "            key, val_key = jr.split(key)\n            val_loss = loss_fn(params, static, *batch, key=val_key)\n            batch_losses.append(val_loss)")
+silent("benign-exp-sum-spelling", ALL, B + "exp.py", "        return jnp.exp(x), x.sum()", "        y = jnp.exp(x)\n        return y, jnp.sum(x)")
